@@ -122,7 +122,7 @@ class _ColorSequences:
         param_name = "bg_color" if is_bg else "color"
 
         # case 1: 'color' is a name of color
-        if color in _ColorSequences._COLORS:
+        if isinstance(color, str) and color in _ColorSequences._COLORS:
             return fg_bg_id + _ColorSequences._COLORS[color]
 
         # case 2: 'color' is an (r, g, b) tuple, each compnent in range(5)
